@@ -1506,11 +1506,11 @@ class EBPF(EBPFBase):
         self.append(Opcode.EXIT, 0, 0, 0, 0)
 
     @contextmanager
-    def get_free_register(self, dst):
+    def get_free_register(self, dst, first=0):
         if dst is not None:
             yield dst
             return
-        for i in range(10):
+        for i in range(first, 10):
             if i not in self.owners:
                 self.owners.add(i)
                 yield i
@@ -1527,7 +1527,9 @@ class EBPF(EBPFBase):
         with ExitStack() as exitStack:
             for i in registers:
                 if i in oldowners:
-                    tmp = exitStack.enter_context(self.get_free_register(None))
+                    # only r6 to r9 survive a helper call
+                    tmp = exitStack.enter_context(
+                        self.get_free_register(None, 6))
                     self.append(Opcode.MOV+Opcode.LONG+Opcode.REG,
                                 tmp, i, 0, 0)
                     save.append((tmp, i))
